@@ -9,7 +9,8 @@ import BasicModel.Lemmas.Link
   patches a reference with the table entry *of its symbol* — so a branch target is a function of
   the line number, not of where the referring code was placed.
 
-  (The whole-program statement `layout_invariance` of DESIGN.md is a target, not proved here.)
+  (The whole-program statement `layout_invariance` of DESIGN.md is proved in `Thm/C20Layout.lean`,
+  which sits in the second lemma chain — `BasicModelRt.lean` — because it reuses `Runtime.Sim`.)
 -/
 namespace Basic
 namespace Thm.C20
